@@ -25,6 +25,7 @@ import types
 
 PY_SUFFIXES = list(importlib.machinery.SOURCE_SUFFIXES)  # Python's own source suffixes, read before hy is imported
 
+CASE_MODULES = set()  # dotted names of the modules of the job being run
 compiled = []  # source paths handed to source_to_code
 loaded = []  # source paths whose code came out of a .pyc
 
@@ -90,6 +91,8 @@ def canon(v, d=0):
         return ["model", t.__name__, hy.repr(v)]
     if isinstance(v, types.ModuleType):
         return ["module", v.__name__]
+    if isinstance(v, (type, types.FunctionType)) and v.__module__ not in CASE_MODULES:
+        return ["foreign", v.__module__, v.__qualname__]  # the harness's own E/CM/XA..., builtins: not produced by the case's code
     if isinstance(v, type):
         attrs = {}
         for k in sorted(vars(v)):
@@ -152,7 +155,10 @@ def snapshot(job):
             continue
         d = m.__dict__
         s = dict(
-            public={k: canon(d[k]) for k in sorted(d) if not k.startswith("_")},
+            # a package's attribute that is its own submodule is put there by the import system when anybody imports the submodule
+            # (e.g. hy.R at compile time only): which modules are loaded is not a value of the module
+            public={k: canon(d[k]) for k in sorted(d) if not k.startswith("_")
+                    and not (isinstance(d[k], types.ModuleType) and d[k].__name__ == m.__name__ + "." + k)},
             macros=macro_table(d.get("_hy_macros", {})),
             readers=macro_table(d.get("_hy_reader_macros", {})),
             extras={k: canon(d.get(k)) for k in ("__all__", "_hy_export_macros", "__doc__", "__name__", "__package__")},
@@ -234,6 +240,8 @@ def run_import_job(job):
         if n in sys.modules:
             raise RuntimeError("module name %s of job %s is already imported in the worker" % (n, job["id"]))
     sys.path.insert(0, root)
+    CASE_MODULES.clear()
+    CASE_MODULES.update(job["modules"])
     out = dict(id=job["id"], phases=[])
     try:
         for phase in job["phases"]:
